@@ -3,7 +3,7 @@
    Only the property theorems (each closed by [exact]) and Print Assumptions. *)
 From Coq Require Import List NArith Bool String.
 Import ListNotations.
-From SygmaV Require Import Lib.Hex Lib.C02_Keccak Model.C02 Proofs.C02 Proofs.C02_Exec.
+From SygmaV Require Import Lib.Hex Lib.C02_Keccak Model.C02 Proofs.C02 Proofs.C02_Exec Proofs.C02_Hist.
 Local Open Scope N_scope.
 
 (* For EVERY hash function with 32-byte output, all domains (name, version, chain id < 2^63,
@@ -154,6 +154,72 @@ Theorem C02_multi_ok_model :
     multi_ok ds (map (fun i => (i, nth i ds [])) idxs) = true.
 Proof. exact multi_ok_model. Qed.
 Print Assumptions C02_multi_ok_model.
+
+(* ---- histories on long-lived digest objects (one BridgeContract / Pallet per destination, used for every
+   batch while the endpoint behind it is not always healthy).  [hist_ok h] is the judge on what the real
+   objects answered: h = per request (the EIP-712 digest for the object's REAL chain id and contract and the
+   batch of this request, the answer).  It accepts iff every value that came back without an error - i.e.
+   every value handed to threshold signing - is that digest, and nothing panicked: *)
+Theorem C02_hist_ok_sound :
+  forall h, hist_ok h = true -> forall want a, In (want, a) h -> a = AErr \/ a = ADigest want.
+Proof. exact hist_ok_sound. Qed.
+Print Assumptions C02_hist_ok_sound.
+
+Theorem C02_hist_ok_complete :
+  forall h, (forall want a, In (want, a) h -> a = AErr \/ a = ADigest want) -> hist_ok h = true.
+Proof. exact hist_ok_complete. Qed.
+Print Assumptions C02_hist_ok_complete.
+
+(* it accepts the objects as modelled (one chain-id call per request, its error returned, nothing kept) for
+   every hash function and every history of requests - to any number of objects, healthy or failing RPC in
+   any pattern; *)
+Theorem C02_hist_ok_model :
+  forall H qs, hist_ok (model_hist H qs) = true.
+Proof. exact hist_ok_model. Qed.
+Print Assumptions C02_hist_ok_model.
+
+(* and what the model answers to a request is the same after every prefix and before every suffix *)
+Theorem C02_hist_independent :
+  forall H pre q post,
+    nth_error (model_hist H (pre ++ q :: post)) (List.length pre) = Some (want_of H q, model_answer H q).
+Proof. exact model_hist_independent. Qed.
+Print Assumptions C02_hist_independent.
+
+(* NOT the code: an object that asks for the chain id once and keeps it in a field, handing the error of that
+   one call only to the request that made it.  When the first call is healthy nothing shows on that object ... *)
+Theorem C02_once_cache_healthy_first :
+  forall H d q qs, q_rpc_fails q = false -> (forall q', In q' (q :: qs) -> q_dom q' = d) ->
+    hist_ok (once_hist H None (q :: qs)) = true.
+Proof. exact once_cache_healthy_first. Qed.
+Print Assumptions C02_once_cache_healthy_first.
+
+(* ... when it fails, the next request - healthy endpoint - is answered, without error, with the digest for
+   chain id 0: the judge rejects the history *)
+Theorem C02_once_cache_refuted :
+  exists (H : list N -> list N) d q1 q2,
+    (forall x, List.length (H x) = 32%nat) /\ wf_domain d = true /\
+    q_dom q1 = d /\ q_dom q2 = d /\ q_rpc_fails q1 = true /\ q_rpc_fails q2 = false /\
+    hist_ok (once_hist H None [q1; q2]) = false /\
+    nth_error (once_hist H None [q1; q2]) 1 =
+      Some (digest H d (q_batch q2), ADigest (digest H (with_chain d 0) (q_batch q2))).
+Proof. exact once_cache_refuted. Qed.
+Print Assumptions C02_once_cache_refuted.
+
+(* Non-vacuity of the history statements (cheap mixing function in place of keccak, the statements hold for
+   every H): a history with a failing first request is accepted as modelled; answering the second request
+   with the digest of another chain id, or with a panic, is rejected. *)
+Example C02_hist_nonvacuous :
+  let q := {| p_origin := 1; p_nonce := 7; p_rid := repeat 3 32; p_data := [] |} in
+  let d := bridge_domain 5 (repeat 17 20) in
+  let M := 2 ^ 256 in
+  let mix := fun x : list N => u256 (fold_left (fun a b => a * 3 + b + 1) x 0 mod M) in
+  let q1 := {| q_dom := d; q_batch := [q]; q_rpc_fails := true |} in
+  let q2 := {| q_dom := d; q_batch := [q; q]; q_rpc_fails := false |} in
+  model_hist mix [q1; q2] = [(digest mix d [q], AErr); (digest mix d [q; q], ADigest (digest mix d [q; q]))] /\
+  hist_ok (model_hist mix [q1; q2]) = true /\
+  hist_ok [(digest mix d [q], AErr); (digest mix d [q; q], ADigest (digest mix (with_chain d 0) [q; q]))] = false /\
+  hist_ok [(digest mix d [q], AErr); (digest mix d [q; q], APanic)] = false.
+Proof. vm_compute. repeat split. Qed.
 
 (* Non-vacuity: the vector pinned in chains/proposal_test.go, computed by the model over the Gallina
    keccak-256; a short-r signature. *)
